@@ -108,9 +108,14 @@ func VerifC19Stop(mode int, n int, ticks int) {
 		lb.healthChecks.activeEnabled = false
 		lb.Stop()
 		atomic.StoreInt32(&stopped, 1)
-	case 1: // two concurrent Stops
-		verifrt.Go(func() { lb.Stop() })
-		verifrt.Go(func() { lb.Stop(); atomic.StoreInt32(&stopped, 1) })
+	case 1: // two concurrent Stops (the signal handler and a deferred Stop): whichever returns, the shutdown is complete
+		done := func() {
+			for _, c := range conns {
+				verifrt.Assert(c.closed, "when Stop returns - to any of its concurrent callers - the pooled connections are closed")
+			}
+		}
+		verifrt.Go(func() { lb.Stop(); done() })
+		verifrt.Go(func() { lb.Stop(); done(); atomic.StoreInt32(&stopped, 1) })
 	case 2: // Stop, then a late tick, then Stop again
 		lb.Stop()
 		lb.checkBackendsHealth()
